@@ -4,6 +4,12 @@ import (
 	"context"
 	"encoding/json"
 	"fmt"
+	"io"
+
+	"go.uber.org/zap"
+	"go.uber.org/zap/zapcore"
+
+	"go.opentelemetry.io/collector/component"
 
 	"go.opentelemetry.io/collector/confmap"
 	"go.opentelemetry.io/collector/confmap/provider/yamlprovider"
@@ -78,4 +84,60 @@ func loadDocWith(facs otelcol.Factories, doc map[string]any, withEff bool) (l lo
 		}
 	})
 	return l
+}
+
+// ---------------------------------------------------------------------------
+// the public validation entry points
+
+func entrySettings(uri string) otelcol.CollectorSettings {
+	set := otelcol.CollectorSettings{
+		BuildInfo:               component.NewDefaultBuildInfo(),
+		Factories:               func() (otelcol.Factories, error) { return factories() },
+		DisableGracefulShutdown: true,
+		SkipSettingGRPCLogger:   true,
+		LoggingOptions:          []zap.Option{zap.WrapCore(func(zapcore.Core) zapcore.Core { return zapcore.NewNopCore() })},
+		ConfigProviderSettings: otelcol.ConfigProviderSettings{ResolverSettings: confmap.ResolverSettings{
+			ProviderFactories: []confmap.ProviderFactory{yamlprovider.NewFactory()},
+			DefaultScheme:     "yaml",
+		}},
+	}
+	if uri != "" {
+		set.ConfigProviderSettings.ResolverSettings.URIs = []string{uri}
+	}
+	return set
+}
+
+// entryOutcome is what one validation entry point said about a document.
+type entryOutcome struct {
+	err    error
+	panicV any
+	stack  string
+}
+
+// dryRun validates a document through otelcol.Collector.DryRun (what the
+// `validate` sub-command calls).
+func dryRun(text string) (o entryOutcome) {
+	o.panicV, o.stack = vt.Recover(func() {
+		col, err := otelcol.NewCollector(entrySettings("yaml:" + text))
+		if err != nil {
+			o.err = fmt.Errorf("NewCollector: %w", err)
+			return
+		}
+		o.err = col.DryRun(context.Background())
+	})
+	return o
+}
+
+// validateCommand validates a document through the command line entry point:
+// otelcol.NewCommand(settings) run with `validate --config=yaml:<doc>`.
+func validateCommand(text string) (o entryOutcome) {
+	o.panicV, o.stack = vt.Recover(func() {
+		cmd := otelcol.NewCommand(entrySettings(""))
+		cmd.SetArgs([]string{"validate", "--config=yaml:" + text})
+		cmd.SetOut(io.Discard)
+		cmd.SetErr(io.Discard)
+		cmd.SilenceErrors = true
+		o.err = cmd.ExecuteContext(context.Background())
+	})
+	return o
 }
